@@ -19,6 +19,7 @@ package main
 
 import (
 	"fmt"
+	"io/ioutil"
 	"math/big"
 	"os"
 	"runtime"
@@ -171,7 +172,7 @@ func evaluate(p *program, witness bool) *verdict {
 // (which equals O2 here); most specific first.
 func explainRules(p *program, in, o1 *outcome) []string {
 	var rules []string
-	if o1.rec.oversize || in.rec.oversize || o1.Err == "evm: max code size exceeded" {
+	if o1.rec.oversize || o1.Err == "evm: max code size exceeded" { // O1 itself got as far as returning > 24576 bytes of code
 		rules = append(rules, "eip170-code-size")
 	}
 	if o1.rec.errs["evm: write protection"] > 0 {
@@ -632,7 +633,8 @@ var requiredTags = []string{
 
 func main() {
 	glog.SetLog(zap.NewNop())
-	debug.SetGCPercent(400) // three VMs allocate an 8KB stack per call frame; collect less often
+	debug.SetGCPercent(300)       // three VMs allocate an 8KB stack per call frame; collect less often ...
+	debug.SetMemoryLimit(6 << 30) // ... but never let the heap run away on a machine shared with other checks
 	run = lib.NewRun("C10", "exploration")
 	run.SetRule("program i of the run is generated from PRNG(VERIF_SEED,\"c10-prog\",i): 2-4 pre-installed contracts (DAG-ranked: call data only flows to higher ranks, empty call data selects a call-free path, so every call tree is finite) plus an optional self-recursive contract with a call-data counter; bodies are trees of stack-neutral statements over all Constantinople opcodes with boundary operands (expressions, DUP/SWAP shuffles, memory, copies in/out of range, logs, if/loop, valid/invalid/misleading jumps, calls of all four kinds to contracts/precompiles/EOAs/empty/missing accounts with and without value, CREATE/CREATE2 with generated init and runtime code, terminators incl. REVERT/SELFDESTRUCT/INVALID/underflow/overflow); top level is evm.Call (84%), evm.Create or evm.Create2; block number drawn from all five mainnet rule eras (74% below Homestead). Gas is normalised by the generator (rank-dependent constant call gas, GAS only as call operand, memory operands either < 128KB or unpayable everywhere) and verified per run (in-tree budget use < 50%, reference frames never below 2^31 gas, step limit); programs failing that are discarded and counted. Non-trivial: in-tree executed >= 20 opcodes; distinct by hash of all code, init code and call data.")
 	run.Assume("go-ethereum v1.8.27 core/vm + core/state from the module cache are the reference; O1 = all forks incl. Constantinople at 0",
@@ -712,6 +714,13 @@ func main() {
 	run.Extra("opcodes_valid_in_constantinople", len(validOps()))
 	run.Extra("opcodes_never_executed", missing)
 	run.Extra("max_in_tree_gas_used", maxGasIn)
+	if b, err := ioutil.ReadFile("/proc/self/status"); err == nil { // informational
+		for _, l := range strings.Split(string(b), "\n") {
+			if strings.HasPrefix(l, "VmHWM:") {
+				run.Extra("peak_rss", strings.TrimSpace(strings.TrimPrefix(l, "VmHWM:")))
+			}
+		}
+	}
 	keyMtx.Lock()
 	run.Extra("class_keys", keyCount)
 	keyMtx.Unlock()
